@@ -84,6 +84,11 @@ func installKnobs(s *sim.Sim, k plan.Knobs) {
 	vbytes.Report = func(clause, detail string) { s.Fail("C20", clause, "%s", detail) }
 	vsync.PoolPoison = k.PoolPoison
 	otter.SetSimBatch(k.OtterBatch)
+	skew := k.OtterSkewUs
+	if skew == 0 {
+		skew = 500
+	}
+	otter.SetSimSkew(time.Duration(skew) * time.Microsecond)
 	vsync.PoolQuarantine = k.PoolQuarantine
 	vsync.PoolReport = func(clause, detail string) { s.Fail("C20", "pooled-object-"+clause, "%s", detail) }
 	if k.UDPMaxBatch > 0 {
